@@ -245,6 +245,12 @@ class Exec:
             v = self.ev(e[2], line)
             if isinstance(v, tuple):
                 return v
+            inner = e[2]
+            while isinstance(inner, tuple) and inner[0] == "paren":
+                inner = inner[1]
+            if " ".join(str(e[1]).split()) == "int" and isinstance(inner, tuple) and inner[0] == "index":
+                # (int) of a string / raw element: every value of char or uint8_t is an int, the conversion preserves the value
+                return ops.b2i(v)
             return ops.conv(e[1], ops.b2i(v))
         if k == "sizeof":
             lv = self.lval(e[1])
